@@ -22,6 +22,8 @@ from deep.api.attributes import BoundedAttributes
 from deep.api.resource import Resource
 from deep.utils import time_ns
 
+_ID_SOURCE = random.SystemRandom()
+
 
 class EventSnapshot:
     """This is the model for the snapshot that is uploaded to the services."""
@@ -36,7 +38,9 @@ class EventSnapshot:
         :param frames: the captured frames
         :param var_lookup: the captured variables.
         """
-        self._id = random.getrandbits(128)
+        # snapshot ids come from the operating system, not from the process-wide generator of the `random` module:
+        # an application that seeds `random` must draw the same numbers with the agent attached
+        self._id = _ID_SOURCE.getrandbits(128)
         self._tracepoint = tracepoint
         self._var_lookup: Dict[str, 'Variable'] = var_lookup
         self._ts_nanos = ts
